@@ -532,3 +532,48 @@ def run_countfail(prog, ctx=None):
     if res.counters.get("sites", 0) < 3:
         raise Broken("COUNTFAIL: only %d counter raises found in the type registry" % res.counters.get("sites", 0))
     return res
+
+
+def run_sparsezero(prog, ctx=None):
+    """SPARSEZERO: a table that is addressed by a computed index (`G[id - base]`, G a file-level pointer) is only partly
+    written by its initialiser: the slots of ids that are not registered, and the members the initialiser does not set, are
+    read as "nothing here" (null / size 0).  That reading needs zero-filled memory: every allocation assigned to such a table
+    is calloc(), or malloc() followed by a memset(G, 0, ..) in the same function."""
+    res = Result("SPARSEZERO")
+    files = set(ctx.get("files", [])) if ctx else None
+    from .rules_path import funcs_of
+    fs = funcs_of(prog, files)
+    indexed = {}
+    for f in fs:
+        for b, i, n in f.walk_all():
+            if n.get("k") == "idx" and cval(n["i"]) is None:
+                a = strip(n["a"], all_casts=True)
+                if a.get("k") == "ref" and a["d"].get("dk") == "global" and f.T(a.get("t")).get("k") == "ptr":
+                    indexed.setdefault(a["d"]["n"], 0)
+                    indexed[a["d"]["n"]] += 1
+            if n.get("k") == "bin" and n.get("op") == "+" and cval(n) is None:
+                a = strip(n["a"], all_casts=True)
+                if a.get("k") == "ref" and a["d"].get("dk") == "global" and f.T(a.get("t")).get("k") == "ptr" and cval(n["b"]) is None:
+                    indexed.setdefault(a["d"]["n"], 0)
+                    indexed[a["d"]["n"]] += 1
+    for f in fs:
+        for b, i, n in f.walk_all():
+            if not (n.get("k") == "bin" and n.get("op") == "="):
+                continue
+            l = strip(n["a"], lvalue_to_rvalue=False)
+            if not (l.get("k") == "ref" and l["d"].get("dk") == "global" and l["d"]["n"] in indexed):
+                continue
+            r = strip(n["b"], all_casts=True)
+            if not (r.get("k") == "call" and callee_name(r) in ("malloc", "calloc", "realloc")):
+                continue
+            ok = callee_name(r) == "calloc"
+            if not ok:
+                for b2, i2, m in f.walk_all():
+                    if m.get("k") == "call" and callee_name(m) == "memset" and len(m.get("args", [])) == 3 and cval(m["args"][1]) == 0:
+                        a0 = strip(m["args"][0], all_casts=True)
+                        if a0.get("k") == "ref" and a0["d"].get("n") == l["d"]["n"]:
+                            ok = True
+            res.ob("%s:%s = %s()" % (f.qn, l["d"]["n"], callee_name(r)), ok, f, n.get("l", f.line) or f.line,
+                   "" if ok else "table %s is addressed by computed index (%d places) and only partly written by its initialiser, but its memory comes from %s() without being cleared: unregistered slots and unset members hold whatever the heap block held" % (
+                       l["d"]["n"], indexed[l["d"]["n"]], callee_name(r)))
+    return res
